@@ -3,11 +3,13 @@
 // C36 harness: the real Server.handleSelect over a scripted lister/decoder.
 //
 //	reset
-//	seg <topic id> <partition> <minOff|-> <maxOff|-> <minTs|-> <maxTs|-> <off:ts,off:ts,…|->
-//	obj <topic id> <partition> <base> <flags: k=.kfs i=.index m=footer magic> <off:ts,…|->   an S3 object set
-//	list <0|1>     run the real s3Lister.ListCompleted over the objects (1: after the real
-//	               TimeIndexBuilder.Build, with the time-index reader) and make its result the segment set
-//	    -> list <topic>/<partition>/<base>/<minOff>/<maxOff>/<minTs>/<maxTs>;…
+//	seg <topic id> <partition> <minOff|-> <maxOff|-> <minTs|-> <maxTs|-> <lastModified ms|-> <off:ts,off:ts,…|->
+//	obj <topic id> <partition> <base> <flags: k=.kfs i=.index m=footer magic> <lastModified ms|-> <off:ts,…|->   an S3 object set
+//	list <time index 0|1> <manifest 0|1> <cache ttl s>
+//	               build the lister stack with the real discovery.New(cfg) against the in-process S3 endpoint
+//	               (after the real TimeIndexBuilder.Build / ManifestBuilder.Build when asked for), list once, and
+//	               serve every later `select` through that same stack (so its caches are hit)
+//	    -> list <topic>/<partition>/<base>/<minOff>/<maxOff>/<minTs>/<maxTs>/<lastModified>;…
 //	select <topic id> part=<n|-> omin=<n|-> omax=<n|-> tmin=<n|-> tmax=<n|-> limit=<n|-> tail=<n|-> order=<-|asc|desc>
 //	    -> rows <seg:partition:offset:ts,…|->   (DataRow messages, in order)   |  err
 package main
@@ -18,9 +20,11 @@ import (
 	"context"
 	"encoding/hex"
 	"fmt"
+	"net/http/httptest"
 	"os"
 	"strconv"
 	"strings"
+	"time"
 
 	"github.com/jackc/pgproto3/v2"
 
@@ -37,9 +41,11 @@ type seg struct {
 }
 
 type world struct {
-	segs []seg
-	s3   *discovery.VerifS3
-	objs map[string][]decoder.Record // .kfs key -> records
+	segs   []seg
+	s3     *discovery.VerifS3
+	objs   map[string][]decoder.Record // .kfs key -> records
+	lister discovery.Lister            // the real stack built by `list`
+	srv    *httptest.Server
 }
 
 func (w *world) index(key string) int {
@@ -52,6 +58,9 @@ func (w *world) index(key string) int {
 }
 
 func (w *world) ListCompleted(ctx context.Context) ([]discovery.SegmentRef, error) {
+	if w.lister != nil {
+		return w.lister.ListCompleted(ctx)
+	}
 	out := make([]discovery.SegmentRef, len(w.segs))
 	for i, s := range w.segs {
 		out[i] = s.ref
@@ -168,7 +177,13 @@ func runSelect(w *world, f []string) (line string) {
 }
 
 func newWorld() *world {
-	return &world{s3: &discovery.VerifS3{Objects: map[string][]byte{}}, objs: map[string][]decoder.Record{}}
+	return &world{s3: &discovery.VerifS3{Objects: map[string][]byte{}, Modified: map[string]int64{}}, objs: map[string][]decoder.Record{}}
+}
+
+func (w *world) close() {
+	if w != nil && w.srv != nil {
+		w.srv.Close()
+	}
 }
 
 func parseRecs(topic string, part int32, s string) ([]decoder.Record, bool) {
@@ -198,28 +213,59 @@ func optStr(p *int64) string {
 	return strconv.FormatInt(*p, 10)
 }
 
-func runList(w *world, withTimeIndex bool) (line string) {
+func lmStr(t time.Time) string {
+	if t.IsZero() {
+		return "-"
+	}
+	return strconv.FormatInt(t.UnixMilli(), 10)
+}
+
+func runList(w *world, withTimeIndex, manifest bool, ttl int) (line string) {
 	defer func() {
 		if r := recover(); r != nil {
 			line = "panic"
 		}
 	}()
 	ctx := context.Background()
+	if w.srv == nil {
+		w.srv = httptest.NewServer(w.s3)
+	}
+	cfg := config.Config{
+		S3:             config.S3Config{Bucket: "b", Endpoint: w.srv.URL, Region: "us-east-1", PathStyle: true},
+		TimeIndex:      config.TimeIndexConfig{Enabled: withTimeIndex},
+		DiscoveryCache: config.DiscoveryCacheConfig{TTLSeconds: ttl, MaxEntries: 10000},
+	}
 	if withTimeIndex {
 		if err := w.s3.VerifBuildTimeIndex(ctx, "", w); err != nil {
 			return "err-build"
 		}
 	}
-	refs, err := w.s3.VerifList(ctx, "", withTimeIndex)
+	if manifest {
+		base, err := discovery.New(config.Config{S3: cfg.S3, TimeIndex: cfg.TimeIndex})
+		if err != nil {
+			return "err-new"
+		}
+		if err := discovery.VerifBuildManifest(ctx, cfg, base); err != nil {
+			return "err-manifest"
+		}
+		cfg.Manifest = config.ManifestConfig{Enabled: true, TTLSeconds: ttl}
+	}
+	l, err := discovery.New(cfg)
+	if err != nil {
+		return "err-new"
+	}
+	w.lister = nil
+	refs, err := l.ListCompleted(ctx)
 	if err != nil {
 		return "err-list"
 	}
+	w.lister = l
 	w.segs = nil
 	var parts []string
 	for _, r := range refs {
 		w.segs = append(w.segs, seg{ref: r, recs: w.objs[r.SegmentKey]})
-		parts = append(parts, fmt.Sprintf("%s/%d/%d/%s/%s/%s/%s", strings.TrimPrefix(r.Topic, "t"), r.Partition, r.BaseOffset,
-			optStr(r.MinOffset), optStr(r.MaxOffset), optStr(r.MinTimestamp), optStr(r.MaxTimestamp)))
+		parts = append(parts, fmt.Sprintf("%s/%d/%d/%s/%s/%s/%s/%s", strings.TrimPrefix(r.Topic, "t"), r.Partition, r.BaseOffset,
+			optStr(r.MinOffset), optStr(r.MaxOffset), optStr(r.MinTimestamp), optStr(r.MaxTimestamp), lmStr(r.LastModified)))
 	}
 	if len(parts) == 0 {
 		return "list -"
@@ -228,6 +274,10 @@ func runList(w *world, withTimeIndex bool) (line string) {
 }
 
 func main() {
+	// static credentials so that discovery.New's aws config resolves without any lookup
+	os.Setenv("AWS_ACCESS_KEY_ID", "verif")
+	os.Setenv("AWS_SECRET_ACCESS_KEY", "verif")
+	os.Setenv("AWS_EC2_METADATA_DISABLED", "true")
 	out := bufio.NewWriter(os.Stdout)
 	defer out.Flush()
 	w := newWorld()
@@ -240,18 +290,23 @@ func main() {
 		}
 		switch {
 		case f[0] == "reset":
+			w.close()
 			w = newWorld()
 			fmt.Fprintln(out, "reset")
-		case f[0] == "obj" && len(f) == 6:
+		case f[0] == "obj" && len(f) == 7:
 			part, e1 := strconv.ParseInt(f[2], 10, 32)
 			base, e2 := strconv.ParseInt(f[3], 10, 64)
 			topic := "t" + f[1]
-			recs, ok := parseRecs(topic, int32(part), f[5])
-			if e1 != nil || e2 != nil || !ok {
+			recs, ok := parseRecs(topic, int32(part), f[6])
+			lm, e3 := optInt64(f[5])
+			if e1 != nil || e2 != nil || e3 != nil || !ok {
 				fmt.Fprintln(out, "bad-op")
 				continue
 			}
 			stem := fmt.Sprintf("%s/%d/segment-%d", topic, part, base)
+			if lm != nil {
+				w.s3.Modified[stem+".kfs"] = *lm
+			}
 			if strings.Contains(f[4], "k") {
 				body := []byte("segment-bytes")
 				if strings.Contains(f[4], "m") {
@@ -266,9 +321,14 @@ func main() {
 				w.s3.Objects[stem+".index"] = []byte("idx")
 			}
 			fmt.Fprintln(out, "obj")
-		case f[0] == "list" && len(f) == 2:
-			fmt.Fprintln(out, runList(w, f[1] == "1"))
-		case f[0] == "seg" && len(f) == 8:
+		case f[0] == "list" && len(f) == 4:
+			ttl, err := strconv.Atoi(f[3])
+			if err != nil {
+				fmt.Fprintln(out, "bad-op")
+				continue
+			}
+			fmt.Fprintln(out, runList(w, f[1] == "1", f[2] == "1", ttl))
+		case f[0] == "seg" && len(f) == 9:
 			part, err := strconv.ParseInt(f[2], 10, 32)
 			if err != nil {
 				fmt.Fprintln(out, "bad-op")
@@ -285,8 +345,13 @@ func main() {
 				}
 				*dst = v
 			}
-			if f[7] != "-" {
-				for _, x := range strings.Split(f[7], ",") {
+			if lm, err := optInt64(f[7]); err != nil {
+				bad = true
+			} else if lm != nil {
+				s.ref.LastModified = time.UnixMilli(*lm)
+			}
+			if f[8] != "-" {
+				for _, x := range strings.Split(f[8], ",") {
 					p := strings.Split(x, ":")
 					if len(p) != 2 {
 						bad = true
